@@ -68,9 +68,10 @@ Definition tinv (c : config) (t : nat) (th : thread) : Prop :=
     match t_pc th with
     | PStart => True
     | PStopWait | PCommit => caller c = false /\ sig_open c = true /\ In (EBegin t) ev
-    | PFul _ | PFulWait _ _ => In (EBegin t) ev /\ In (EResolved t) ev /\ result c = Some (op_res (t_op th)) /\
-                               sig_open c = false
-    | PDone => t_out th = OPanic \/
+    | PFul _ | PFulWait _ _ | PClose =>
+      In (EBegin t) ev /\ In (EResolved t) ev /\ result c = Some (op_res (t_op th)) /\
+      sig_open c = false /\ done_open c = true
+    | PDone => (t_out th = OPanic /\ caller c = false) \/
                (t_out th = ORet /\ In (EBegin t) ev /\ In (EResolved t) ev /\ result c = Some (op_res (t_op th)))
     | _ => False
     end
@@ -98,7 +99,7 @@ Definition tinv (c : config) (t : nat) (th : thread) : Prop :=
   | OClient p _ =>
     match t_pc th with
     | PStart | PWaitRes => True
-    | PAfterRes => sig_open c = false
+    | PAfterRes => sig_open c = false /\ done_open c = false
     | PDone => exists h, t_out th = OHandle h /\
                  match h with
                  | HProxy x => exists px, nth_error (proxies c) x = Some px /\ px_path px = p
@@ -119,8 +120,13 @@ Definition tinv (c : config) (t : nat) (th : thread) : Prop :=
     | PDone => t_out th = OStruct (match cur_res c with RRej => false | _ => true end) /\ sig_open c = false
     | _ => False
     end
-  | OUngate _ => match t_pc th with PStart | PDone => True | _ => False end
+  | OUngate _ | OConsume => match t_pc th with PStart | PDone => True | _ => False end
   end.
+
+(* resolve between "result known" and closing the signals *)
+Definition postk_pc (p : pc) : bool :=
+  match p with PFul _ | PFulWait _ _ | PClose => true | _ => false end.
+Definition in_postk (th : thread) : bool := is_res_op (t_op th) && postk_pc (t_pc th).
 
 Definition in_precommit (th : thread) : bool := is_res_op (t_op th) && precommit_pc (t_pc th).
 
@@ -142,6 +148,7 @@ Record Inv (c : config) : Prop := {
   I_mu : mu c = None;
   I_caller_sig : caller c = true -> sig_open c = true;
   I_res_none : sig_open c = true -> result c = None;
+  I_done : done_open c = false -> sig_open c = false;
   I_begin : cnt is_begin (events c) = b2n (negb (caller c));
   I_resolved : cnt is_resolved (events c) = b2n (negb (sig_open c));
   I_result : sig_open c = false -> exists r, result c = Some r;
@@ -232,11 +239,13 @@ Lemma tinv_other : forall c c' t th new,
   (sig_open c = false -> sig_open c' = false) ->
   (forall r, result c = Some r -> result c' = Some r) ->
   (in_precommit th = true -> sig_open c' = true) ->
+  (in_postk th = true -> done_open c' = true) ->
+  (done_open c = false -> done_open c' = false) ->
   (forall x px, nth_error (proxies c) x = Some px ->
                 exists px', nth_error (proxies c') x = Some px' /\ px_path px' = px_path px) ->
   tinv c' t th.
 Proof.
-  intros c c' t th new HI HT Hev Hnew Hcal Hsig Hres Hpre Hpx.
+  intros c c' t th new HI HT Hev Hnew Hcal Hsig Hres Hpre Hpost Hdn Hpx.
   assert (Hcnt : cnt (is_deliver t) (events c') = cnt (is_deliver t) (events c)).
   { rewrite Hev, cnt_app, (cnt_none t new Hnew). reflexivity. }
   assert (Hin : forall e, In e (events c) -> In e (events c')).
@@ -250,20 +259,21 @@ Proof.
   { intros p d H Hd. apply Hback in Hd. destruct (sig_open c) eqn:Hs.
     - left. exact (I_early c HI Hs t d Hd).
     - rewrite (Hcur eq_refl). auto. }
-  unfold tinv in *. unfold in_precommit in Hpre.
-  destruct (t_op th) eqn:Hop; simpl in Hpre.
-  - (* OFulfill *) destruct (t_pc th); simpl in Hpre; intuition auto.
-  - (* OReject *) destruct (t_pc th); simpl in Hpre; intuition auto.
+  unfold tinv in *. unfold in_precommit in Hpre. unfold in_postk in Hpost.
+  destruct (t_op th) eqn:Hop; simpl in Hpre, Hpost.
+  - (* OFulfill *) destruct (t_pc th); simpl in Hpre, Hpost; intuition auto.
+  - (* OReject *) destruct (t_pc th); simpl in Hpre, Hpost; intuition auto.
   - (* OSend *) rewrite Hcnt. destruct HT as [H1 [H2 [H3 H4]]].
     split; [exact H1|]. split; [intros d; apply Hdest; apply H2|]. split; [exact H3|].
     destruct (t_pc th); intuition auto.
-  - (* OClient *) destruct (t_pc th); auto.
+  - (* OClient *) destruct (t_pc th); auto; [tauto|].
     destruct HT as [h [Ho Hh]]. exists h. split; auto. destruct h as [x|d].
     + destruct Hh as [px [Ha Hb]]. destruct (Hpx x px Ha) as [px' [Hc Hd]]. exists px'. split; congruence.
     + destruct Hh as [Ha Hb]. rewrite (Hcur Hb). auto.
   - (* OCall *) rewrite Hcnt. destruct (t_pc th); intuition auto.
   - (* ORelease *) destruct (t_pc th); auto.
   - (* OWait *) destruct (t_pc th); auto. destruct HT as [Ha Hb]. rewrite (Hcur Hb). auto.
+  - destruct (t_pc th); auto.
   - destruct (t_pc th); auto.
 Qed.
 
@@ -294,6 +304,20 @@ Proof.
   - exact (I_unique c HI t1 t2 th1 th2 E1 E2 P1 P2).
 Qed.
 
+Lemma postk_done : forall c t th, Inv c -> nth_error (threads c) t = Some th -> in_postk th = true ->
+  done_open c = true /\ sig_open c = false /\ In (EResolved t) (events c).
+Proof.
+  intros c t th HI Hth P. pose proof (I_threads c HI t th Hth) as T. unfold in_postk in P. unfold tinv in T.
+  destruct (t_op th); simpl in P; try discriminate; destruct (t_pc th); simpl in P; try discriminate; tauto.
+Qed.
+
+Lemma precommit_sig : forall c t th, Inv c -> nth_error (threads c) t = Some th -> in_precommit th = true ->
+  sig_open c = true.
+Proof.
+  intros c t th HI Hth P. pose proof (I_threads c HI t th Hth) as T. unfold in_precommit in P. unfold tinv in T.
+  destruct (t_op th); simpl in P; try discriminate; destruct (t_pc th); simpl in P; try discriminate; tauto.
+Qed.
+
 Definition px_preserved (c c' : config) : Prop :=
   forall x px, nth_error (proxies c) x = Some px ->
                exists px', nth_error (proxies c') x = Some px' /\ px_path px' = px_path px.
@@ -306,7 +330,7 @@ Lemma inv_frame : forall c c' t th th',
   Inv c -> nth_error (threads c) t = Some th ->
   threads c' = upd t th' (threads c) ->
   mu c' = None -> caller c' = caller c -> sig_open c' = sig_open c -> result c' = result c ->
-  events c' = events c ->
+  events c' = events c -> done_open c' = done_open c ->
   (caller c = true -> map fst (clients c') = map px_path (proxies c') /\
                       map snd (clients c') = seq 0 (length (proxies c'))) ->
   NoDup (map px_path (proxies c')) ->
@@ -318,18 +342,15 @@ Lemma inv_frame : forall c c' t th th',
   tinv c' t th' -> (in_precommit th' = true -> in_precommit th = true) ->
   Inv c'.
 Proof.
-  intros c c' t th th' HI Hth Hup Hmu Hcal Hsig Hres Hev Htab Hpaths Hlate Htgt Hslots Hpx HT Hpre.
-  constructor; try rewrite Hcal; try rewrite Hsig; try rewrite Hres; try rewrite Hev; try apply HI; auto.
+  intros c c' t th th' HI Hth Hup Hmu Hcal Hsig Hres Hev Hdone Htab Hpaths Hlate Htgt Hslots Hpx HT Hpre.
+  constructor; try rewrite Hcal; try rewrite Hsig; try rewrite Hres; try rewrite Hev; try rewrite Hdone;
+    try apply HI; auto.
   - intros t0 th0 H0.
     destruct (threads_after_upd c c' t th th' Hth Hup t0 th0 H0) as [[-> ->]|[N E]]; [exact HT|].
-    apply (tinv_other c c' t0 th0 []); auto.
-    + exact (I_threads c HI t0 th0 E).
-    + congruence.
-    + congruence.
-    + intros r Hr. congruence.
-    + intros P. rewrite Hsig.
-      pose proof (I_threads c HI t0 th0 E) as T. unfold in_precommit in P. unfold tinv in T.
-      destruct (t_op th0); simpl in P; try discriminate; destruct (t_pc th0); simpl in P; try discriminate; tauto.
+    apply (tinv_other c c' t0 th0 []); auto;
+      try solve [exact (I_threads c HI t0 th0 E)]; try solve [congruence]; try solve [intros r Hr; congruence].
+    + intros P. rewrite Hsig. exact (precommit_sig c t0 th0 HI E P).
+    + intros P. rewrite Hdone. exact (proj1 (postk_done c t0 th0 HI E P)).
   - exact (unique_after_upd c c' t th th' HI Hth Hup Hpre).
 Qed.
 
@@ -338,11 +359,12 @@ Lemma inv_frame0 : forall c c' t th th',
   Inv c -> nth_error (threads c) t = Some th ->
   threads c' = upd t th' (threads c) ->
   mu c' = None -> caller c' = caller c -> sig_open c' = sig_open c -> result c' = result c ->
-  events c' = events c -> clients c' = clients c -> proxies c' = proxies c -> slots c' = slots c ->
+  events c' = events c -> done_open c' = done_open c ->
+  clients c' = clients c -> proxies c' = proxies c -> slots c' = slots c ->
   tinv c' t th' -> (in_precommit th' = true -> in_precommit th = true) ->
   Inv c'.
 Proof.
-  intros c c' t th th' HI Hth Hup Hmu Hcal Hsig Hres Hev Hcl Hpx Hsl HT Hpre.
+  intros c c' t th th' HI Hth Hup Hmu Hcal Hsig Hres Hev Hdone Hcl Hpx Hsl HT Hpre.
   apply (inv_frame c c' t th th'); auto; try rewrite Hcl; try rewrite Hpx; try rewrite Hsl; try apply HI.
   apply px_preserved_refl. exact Hpx.
 Qed.
@@ -352,7 +374,7 @@ Lemma inv_deliver : forall c c' t th th' d,
   Inv c -> nth_error (threads c) t = Some th ->
   threads c' = upd t th' (threads c) ->
   mu c' = None -> caller c' = caller c -> sig_open c' = sig_open c -> result c' = result c ->
-  events c' = EDeliver t d :: events c ->
+  events c' = EDeliver t d :: events c -> done_open c' = done_open c ->
   clients c' = clients c -> slots c' = slots c ->
   NoDup (map px_path (proxies c')) ->
   (forall x px, nth_error (proxies c') x = Some px -> (px_rel px = true \/ px_target px <> None) ->
@@ -363,9 +385,9 @@ Lemma inv_deliver : forall c c' t th th' d,
   tinv c' t th' -> (in_precommit th' = true -> in_precommit th = true) ->
   Inv c'.
 Proof.
-  intros c c' t th th' d HI Hth Hup Hmu Hcal Hsig Hres Hev Hcl Hsl Hpaths Hlate Htgt Hpx Hmap Hd1 Hd2 HT Hpre.
+  intros c c' t th th' d HI Hth Hup Hmu Hcal Hsig Hres Hev Hdone Hcl Hsl Hpaths Hlate Htgt Hpx Hmap Hd1 Hd2 HT Hpre.
   constructor; try rewrite Hcal; try rewrite Hsig; try rewrite Hres; try rewrite Hev; try rewrite Hcl;
-    try rewrite Hsl; try apply HI; auto.
+    try rewrite Hsl; try rewrite Hdone; try apply HI; auto.
   - intros Hs t0 d0 [He|Hin].
     + inversion He; subst. destruct d0; auto; exfalso;
         (assert (sig_open c = false) by (apply Hd2; discriminate)); congruence.
@@ -380,15 +402,11 @@ Proof.
     + rewrite <- (map_length px_path (proxies c)), <- Hmap, map_length. reflexivity.
   - intros t0 th0 H0.
     destruct (threads_after_upd c c' t th th' Hth Hup t0 th0 H0) as [[-> ->]|[N E]]; [exact HT|].
-    apply (tinv_other c c' t0 th0 [EDeliver t d]); auto.
-    + exact (I_threads c HI t0 th0 E).
+    apply (tinv_other c c' t0 th0 [EDeliver t d]); auto;
+      try solve [exact (I_threads c HI t0 th0 E)]; try solve [congruence]; try solve [intros r Hr; congruence].
     + intros d0 [He|[]]. inversion He. congruence.
-    + congruence.
-    + congruence.
-    + intros r Hr. congruence.
-    + intros P. rewrite Hsig.
-      pose proof (I_threads c HI t0 th0 E) as T. unfold in_precommit in P. unfold tinv in T.
-      destruct (t_op th0); simpl in P; try discriminate; destruct (t_pc th0); simpl in P; try discriminate; tauto.
+    + intros P. rewrite Hsig. exact (precommit_sig c t0 th0 HI E P).
+    + intros P. rewrite Hdone. exact (proj1 (postk_done c t0 th0 HI E P)).
   - exact (unique_after_upd c c' t th th' HI Hth Hup Hpre).
 Qed.
 
@@ -429,7 +447,7 @@ Lemma inv_frame_px : forall c c' t th th' x p',
   Inv c -> nth_error (threads c) t = Some th ->
   threads c' = upd t th' (threads c) ->
   mu c' = None -> caller c' = caller c -> sig_open c' = sig_open c -> result c' = result c ->
-  events c' = events c -> clients c' = clients c -> slots c' = slots c ->
+  events c' = events c -> done_open c' = done_open c -> clients c' = clients c -> slots c' = slots c ->
   proxies c' = upd x p' (proxies c) ->
   px_path p' = px_path (get_px c x) ->
   (sig_open c = false \/ (px_rel p' = px_rel (get_px c x) /\ px_target p' = px_target (get_px c x))) ->
@@ -437,7 +455,7 @@ Lemma inv_frame_px : forall c c' t th th' x p',
   tinv c' t th' -> (in_precommit th' = true -> in_precommit th = true) ->
   Inv c'.
 Proof.
-  intros c c' t th th' x p' HI Hth Hup Hmu Hcal Hsig Hres Hev Hcl Hsl Hpx Hpath Hflags Htg HT Hpre.
+  intros c c' t th th' x p' HI Hth Hup Hmu Hcal Hsig Hres Hev Hdone Hcl Hsl Hpx Hpath Hflags Htg HT Hpre.
   assert (Hmap : map px_path (proxies c') = map px_path (proxies c)).
   { rewrite Hpx. apply map_upd_path. intros p Hp. rewrite Hpath, (get_px_nth c x p Hp). reflexivity. }
   apply (inv_frame c c' t th th'); auto.
@@ -477,9 +495,10 @@ Lemma inv_resolve : forall c c' t th th' new r,
   (caller c = true \/ in_precommit th = true) ->
   ((sig_open c' = sig_open c /\ result c' = result c /\ cnt is_resolved new = 0%nat) \/
    (sig_open c' = false /\ result c' = Some r /\ cnt is_resolved new = 1%nat /\ in_precommit th' = false)) ->
+  (done_open c' = done_open c \/ (done_open c' = false /\ sig_open c' = false /\ caller c = true)) ->
   tinv c' t th' -> Inv c'.
 Proof.
-  intros c c' t th th' new r HI Hth Hup Hmu Hcl Hpx Hsl Hev Hnew Hwf Hcal Hb Hwho Hkind HT.
+  intros c c' t th th' new r HI Hth Hup Hmu Hcl Hpx Hsl Hev Hnew Hwf Hcal Hb Hwho Hkind Hdn HT.
   assert (Hso : sig_open c = true).
   { destruct Hwho as [Hc|P]; [exact (I_caller_sig c HI Hc)|exact (proj2 (precommit_facts c t th HI Hth P))]. }
   assert (Hother : forall t0 th0, t0 <> t -> nth_error (threads c) t0 = Some th0 -> in_precommit th0 = true -> False).
@@ -488,6 +507,8 @@ Proof.
   constructor; auto.
   - rewrite Hcal. discriminate.
   - intros Hs. destruct Hkind as [[H1 [H2 _]]|[H1 _]]; [|congruence]. rewrite H2. apply (I_res_none c HI). congruence.
+  - intros Hd. destruct Hdn as [Hd'|[_ [Hd' _]]]; [|exact Hd'].
+    rewrite Hd' in Hd. pose proof (I_done c HI Hd). congruence.
   - rewrite Hev, cnt_app, Hb, (I_begin c HI), Hcal. destruct (caller c); reflexivity.
   - rewrite Hev, cnt_app, (I_resolved c HI), Hso. destruct Hkind as [[H1 [_ H3]]|[H1 [_ [H3 _]]]]; rewrite H1, H3; try rewrite Hso; reflexivity.
   - intros Hs. destruct Hkind as [[H1 [H2 _]]|[_ [H2 _]]]; [congruence|eauto].
@@ -501,12 +522,13 @@ Proof.
   - rewrite Hsl. intros s d Hin. destruct (I_slots c HI s d Hin). congruence.
   - intros t0 th0 H0.
     destruct (threads_after_upd c c' t th th' Hth Hup t0 th0 H0) as [[-> ->]|[N E]]; [exact HT|].
-    apply (tinv_other c c' t0 th0 new); auto.
-    + exact (I_threads c HI t0 th0 E).
-    + intros; congruence.
+    apply (tinv_other c c' t0 th0 new); auto;
+      try solve [exact (I_threads c HI t0 th0 E)]; try solve [intros; congruence];
+      try solve [apply px_preserved_refl; exact Hpx].
     + intros r0 Hr0. pose proof (I_res_none c HI Hso). congruence.
     + intros P. exfalso. exact (Hother t0 th0 N E P).
-    + apply px_preserved_refl. exact Hpx.
+    + intros P. destruct (postk_done c t0 th0 HI E P) as [_ [Hf _]]. congruence.
+    + intros Hd. pose proof (I_done c HI Hd). congruence.
   - intros t1 t2 th1 th2 H1 H2 P1 P2.
     destruct (threads_after_upd c c' t th th' Hth Hup t1 th1 H1) as [[-> ->]|[N1 E1]];
     destruct (threads_after_upd c c' t th th' Hth Hup t2 th2 H2) as [[-> ->]|[N2 E2]]; auto.
@@ -539,4 +561,55 @@ Proof.
     repeat split; auto. intros d [].
   - intros t1 t2 th1 th2 H1 _ P1. rewrite nth_error_map in H1. destruct (nth_error ops t1) as [o|]; [|discriminate].
     inversion H1; subst. unfold in_precommit, mk_thread in P1. simpl in P1. rewrite andb_false_r in P1. discriminate.
+Qed.
+
+(* ---------------------------------------------------------------- closing the signals *)
+
+Lemma two_resolved : forall l t1 t2, In (EResolved t1) l -> In (EResolved t2) l -> t1 <> t2 ->
+  (2 <= cnt is_resolved l)%nat.
+Proof.
+  induction l as [|e l IH]; intros t1 t2 H1 H2 Hne; [destruct H1|].
+  rewrite cnt_cons. destruct H1 as [->|H1]; destruct H2 as [E|H2].
+  - inversion E. congruence.
+  - simpl. assert (1 <= cnt is_resolved l)%nat; [|lia].
+    clear IH. induction l as [|e' l IHl]; [destruct H2|]. rewrite cnt_cons. destruct H2 as [->|H2]; simpl; [lia|].
+    specialize (IHl H2). lia.
+  - subst e. simpl. assert (1 <= cnt is_resolved l)%nat; [|lia].
+    clear IH. induction l as [|e' l IHl]; [destruct H1|]. rewrite cnt_cons. destruct H1 as [->|H1]; simpl; [lia|].
+    specialize (IHl H1). lia.
+  - specialize (IH t1 t2 H1 H2 Hne). lia.
+Qed.
+
+Lemma postk_unique : forall c t1 t2 th1 th2, Inv c ->
+  nth_error (threads c) t1 = Some th1 -> nth_error (threads c) t2 = Some th2 ->
+  in_postk th1 = true -> in_postk th2 = true -> t1 = t2.
+Proof.
+  intros c t1 t2 th1 th2 HI H1 H2 P1 P2.
+  destruct (Nat.eq_dec t1 t2) as [|Hne]; auto. exfalso.
+  destruct (postk_done c t1 th1 HI H1 P1) as [_ [Hs R1]]. destruct (postk_done c t2 th2 HI H2 P2) as [_ [_ R2]].
+  pose proof (two_resolved _ _ _ R1 R2 Hne) as H. rewrite (I_resolved c HI), Hs in H. simpl in H. lia.
+Qed.
+
+(* resolve's last section: only done_open changes *)
+Lemma inv_close : forall c c' t th th',
+  Inv c -> nth_error (threads c) t = Some th -> in_postk th = true ->
+  threads c' = upd t th' (threads c) ->
+  mu c' = None -> caller c' = caller c -> sig_open c' = sig_open c -> result c' = result c ->
+  events c' = events c -> done_open c' = false ->
+  clients c' = clients c -> proxies c' = proxies c -> slots c' = slots c ->
+  tinv c' t th' -> in_precommit th' = false ->
+  Inv c'.
+Proof.
+  intros c c' t th th' HI Hth Hpk Hup Hmu Hcal Hsig Hres Hev Hdone Hcl Hpx Hsl HT Hpre.
+  destruct (postk_done c t th HI Hth Hpk) as [Hd [Hs _]].
+  constructor; try rewrite Hcal; try rewrite Hsig; try rewrite Hres; try rewrite Hev; try rewrite Hcl;
+    try rewrite Hpx; try rewrite Hsl; try apply HI; auto.
+  - intros t0 th0 H0.
+    destruct (threads_after_upd c c' t th th' Hth Hup t0 th0 H0) as [[-> ->]|[N E]]; [exact HT|].
+    apply (tinv_other c c' t0 th0 []); auto;
+      try solve [exact (I_threads c HI t0 th0 E)]; try solve [congruence]; try solve [intros r Hr; congruence].
+    + intros P. rewrite Hsig. exact (precommit_sig c t0 th0 HI E P).
+    + intros P. exfalso. apply N. exact (postk_unique c t0 t th0 th HI E Hth P Hpk).
+    + apply px_preserved_refl. exact Hpx.
+  - apply (unique_after_upd c c' t th th' HI Hth Hup). intros P. congruence.
 Qed.
